@@ -120,6 +120,15 @@ check('C08', 'model_checking',
       'exhaustive enumeration of transaction pairs and commit schedules over a BFS state space', 'E1+E4',
       'DESIGN.md §4 C08')
 
+check('C10', 'exploration',
+      'Every ordered pair of subsets of the key universe x 13 x 13 operand forms (Set, TreeSet, Bucket, BTree '
+      'in ascending-built and deletion-thinned shapes at node sizes 2/2, sorted list, shuffled list with a '
+      'duplicate, tuple, generator, Python set, dict, None) x module union/intersection/difference, | & - ^ '
+      'and |= &= -= ^= : key list equal to Python set algebra, strictly ascending, documented result kind, '
+      'difference keeps the first operand\'s values, None conventions, non-target operands unchanged; '
+      'all 22 families, both implementations, centred and extreme universes.',
+      TB, 'exhaustive enumeration of the operand cube against set algebra', 'E5', 'DESIGN.md §4 C10')
+
 PENDING = ['C%02d' % i for i in range(1, 20)]
 
 
